@@ -8,6 +8,8 @@
  *   readers   N threads iterating / querying / seeking one open reader through their own iterators
  *   single    one caller thread, several pooled writers and a pooled sorter on one pool (the pool's own handoffs)
  *   abandon   pooled sorters with dispatched chunks destroyed without ever being iterated or written
+ *   sortedge  pooled sorters iterated right after n adds, for a run of consecutive n longer than one spill period: for one of
+ *             them the last add is the one that dispatches its batch (nothing buffered when the iterator is made)
  * Every scenario checks its functional result too (files read back completely, sorter output count).
  * ThreadSanitizer reports are counted by the runtime (TSAN_OPTIONS=exitcode=66).
  */
@@ -193,6 +195,36 @@ int main(int argc, char **argv) {
 			}
 			if (round == 1) usleep(20000);
 			if (round == 2) usleep(300000);
+			mtbl_sorter_destroy(&s);
+		}
+		mtbl_threadpool_destroy(&pool);
+	} else if (!strcmp(sc, "sortedge")) {
+		pool = mtbl_threadpool_init(1 + seed % 3);
+		for (int d = 0; d < 48; d++) {
+			struct mtbl_sorter_options *o = mtbl_sorter_options_init();
+			mtbl_sorter_options_set_max_memory(o, 2000);
+			mtbl_sorter_options_set_temp_dir(o, dir);
+			mtbl_sorter_options_set_merge_func(o, merge_cat, NULL);
+			mtbl_sorter_options_set_threadpool(o, pool);
+			struct mtbl_sorter *s = mtbl_sorter_init(o);
+			mtbl_sorter_options_destroy(&o);
+			int nadd = 60 + d, distinct = 53;
+			for (int i = 0; i < nadd; i++) {
+				char key[32]; uint8_t val[24];
+				snprintf(key, sizeof key, "e%04d", (i * 17) % distinct);
+				memset(val, i, sizeof val);
+				mtbl_res r = mtbl_sorter_add(s, (uint8_t *)key, strlen(key), val, sizeof val);
+				assert(r == mtbl_res_success);
+			}
+			/* in every other sorter the chunk jobs get time to complete before the iterator is made (the result handler has
+			 * then collected them, or is about to), in the others they are still running */
+			if ((seed + (uint64_t)d) % 2) usleep(4000);
+			struct mtbl_iter *it = mtbl_sorter_iter(s);
+			assert(it);
+			const uint8_t *k, *v; size_t lk, lv; int c = 0; size_t bytes = 0;
+			while (mtbl_iter_next(it, &k, &lk, &v, &lv) == mtbl_res_success) { c++; bytes += lv; }
+			if (c != (nadd < distinct ? nadd : distinct) || bytes != (size_t)nadd * 24) __atomic_add_fetch(&failures, 1, __ATOMIC_SEQ_CST);
+			mtbl_iter_destroy(&it);
 			mtbl_sorter_destroy(&s);
 		}
 		mtbl_threadpool_destroy(&pool);
